@@ -71,3 +71,24 @@ def resolveSvgSize (r r64 : Rat â†’ Rat) (i : SizeInput) : Option (Rat Ã— Rat) Ã
     (sizeFromWh (convertLength r w1 100 i.env) (convertLength r h1 100 i.env), restore)
 
 end Resvg.Convert
+
+namespace Resvg.Convert
+/-- units.rs `resolve_font_size`: one ancestor's `font-size` length applied to the inherited size.
+    (It is a second copy of the unit table of `convert_length`, with its own em / ex / % rules.) -/
+def fontSizeStep (r : Rat â†’ Rat) (dpi : Rat) (fs : Rat) (len : Length) : Rat :=
+  let n := r len.number
+  match len.unit with
+  | .none | .px => n
+  | .em => r (n * fs)
+  | .ex => r (r (n * fs) / 2)
+  | .inch => r (n * dpi)
+  | .cm => r (r (n * dpi) / r (254 / 100))
+  | .mm => r (r (n * dpi) / r (254 / 10))
+  | .pt => r (r (n * dpi) / 72)
+  | .pc => r (r (n * dpi) / 6)
+  | .percent => r (r (n * fs) * r (1 / 100))
+
+/-- the loop over the ancestors (root first) that carry a `font-size` length -/
+def resolveFontSize (r : Rat â†’ Rat) (dpi default : Rat) (chain : List Length) : Rat :=
+  chain.foldl (fontSizeStep r dpi) default
+end Resvg.Convert
